@@ -281,6 +281,13 @@ type Result struct {
 	Notes       []string
 	Exhaustive  bool
 	infra       []string
+	groups      map[string]*group
+	groupOrder  []string
+}
+
+type group struct {
+	rule, key, pos, detail string
+	members                []string
 }
 
 func NewResult(id, tier string) *Result {
@@ -297,6 +304,42 @@ func (r *Result) Ob(rule, construct, pos string, ok bool, detail string) {
 	if !ok {
 		r.Findings = append(r.Findings, Finding{Property: r.Property, Rule: rule, Construct: construct, Pos: pos, Msg: detail})
 	}
+}
+
+// GroupOb records an obligation that belongs to a group of instances of one
+// construct (e.g. all corpus fields expanded from the same template branch).
+// Failing members are reported as ONE finding per (rule, group) that lists how
+// many instances failed and a few examples, so that findings stay specific to
+// the construct and do not multiply with the corpus.
+func (r *Result) GroupOb(rule, groupKey, member, pos string, ok bool, detail string) {
+	r.Obligations = append(r.Obligations, Obligation{Rule: rule, Construct: groupKey + " :: " + member, Pos: pos, Discharged: ok, Detail: detail})
+	if ok {
+		return
+	}
+	if r.groups == nil {
+		r.groups = map[string]*group{}
+	}
+	k := rule + "|" + groupKey
+	g := r.groups[k]
+	if g == nil {
+		g = &group{rule: rule, key: groupKey, pos: pos, detail: detail}
+		r.groups[k] = g
+		r.groupOrder = append(r.groupOrder, k)
+	}
+	g.members = append(g.members, member)
+}
+
+func (r *Result) flushGroups() {
+	for _, k := range r.groupOrder {
+		g := r.groups[k]
+		ex := g.members
+		if len(ex) > 4 {
+			ex = ex[:4]
+		}
+		r.Findings = append(r.Findings, Finding{Property: r.Property, Rule: g.rule, Construct: g.key, Pos: g.pos,
+			Msg: fmt.Sprintf("%d instance(s), e.g. %s — %s", len(g.members), strings.Join(ex, "; "), g.detail)})
+	}
+	r.groups, r.groupOrder = nil, nil
 }
 
 // Fail records a finding that is not tied to an enumerated obligation.
@@ -369,6 +412,7 @@ func loadKnown() (map[string]knownEntry, error) {
 // Finish prints the report, writes evidence and replay files and returns the
 // process exit code (0 ok / 1 violation / 2 infrastructure).
 func (r *Result) Finish() int {
+	r.flushGroups()
 	known, err := loadKnown()
 	if err != nil {
 		r.Infra("%v", err)
